@@ -53,14 +53,14 @@ ScopeOf(container) ==
            dflt |-> IF JHas(pb, "default") THEN Get(pb, "default").uri ELSE NONE]
   ELSE [pfx |-> <<>>, dflt |-> NONE]
 (* URI of a lexically split name {p, l} in scope `inner' nested in `outer'; NONE if unbound *)
-NameUri(q, inner, outer) ==
+JNameUri(q, inner, outer) ==
   IF q.p = "" THEN (IF inner.dflt # NONE THEN inner.dflt \o q.l
                     ELSE IF outer.dflt # NONE THEN outer.dflt \o q.l ELSE NONE)
   ELSE IF q.p \in DOMAIN inner.pfx THEN inner.pfx[q.p] \o q.l
   ELSE IF q.p \in DOMAIN outer.pfx THEN outer.pfx[q.p] \o q.l
   ELSE IF q.p \in DOMAIN Predeclared THEN Predeclared[q.p] \o q.l
   ELSE NONE
-StrUri(s, inner, outer) == IF s.qn = <<>> THEN NONE ELSE NameUri(s.qn[1], inner, outer)
+JStrUri(s, inner, outer) == IF s.qn = <<>> THEN NONE ELSE JNameUri(s.qn[1], inner, outer)
 
 XsdT(u) == IF Len(u) = 2 /\ u[1] = "xsd#" THEN u[2] ELSE ""
 JIntTypes == {"int", "integer", "long", "short", "byte", "nonNegativeInteger", "unsignedLong",
@@ -78,7 +78,7 @@ TypedVal(o, inner, outer) ==
   LET lexn == Get(o, "$") IN
   IF JHas(o, "lang") THEN [t |-> "lang", v |-> lexn.v, lang |-> Get(o, "lang").raw]
   ELSE IF ~JHas(o, "type") THEN Bad("untyped object")
-  ELSE LET dt == StrUri(Get(o, "type"), inner, outer)
+  ELSE LET dt == JStrUri(Get(o, "type"), inner, outer)
            x  == XsdT(dt)
        IN IF dt = NONE THEN Bad("unbound datatype")
           ELSE IF x = "string" THEN [t |-> "str", v |-> lexn.v]
@@ -92,7 +92,7 @@ TypedVal(o, inner, outer) ==
           ELSE IF x = "dateTime" THEN [t |-> "dt", v |-> lexn.iso]
           ELSE IF x = "anyURI" THEN [t |-> "uri", u |-> lexn.uri]
           ELSE IF dt = <<"prov#", "QUALIFIED_NAME">> \/ x = "QName"
-               THEN [t |-> "qn", u |-> StrUri(lexn, inner, outer)]
+               THEN [t |-> "qn", u |-> JStrUri(lexn, inner, outer)]
           ELSE [t |-> "lit", v |-> lexn.v, dt |-> dt]
 OneVal(n, inner, outer) == IF n.j = "obj" THEN TypedVal(n, inner, outer) ELSE ScalarVal(n)
 ValSet(n, inner, outer) ==
@@ -102,13 +102,13 @@ ValSet(n, inner, outer) ==
 (* 2.4 the value of a PROV formal attribute *)
 FormalVals(local, n, inner, outer) ==
   LET one(x) == IF local \in JTimeAttrs THEN [t |-> "dt", v |-> x.iso]
-                ELSE [t |-> "qn", u |-> StrUri(x, inner, outer)]
+                ELSE [t |-> "qn", u |-> JStrUri(x, inner, outer)]
   IN IF n.j = "arr" THEN {one(n.items[i]) : i \in 1..Len(n.items)} ELSE {one(n)}
 
 (* one attribute object -> set of [a, v] *)
 AttrsOf(body, inner, outer) ==
   UNION { LET key == body.items[i][1]
-              au  == StrUri(key, inner, outer)
+              au  == JStrUri(key, inner, outer)
               fl  == IF au # NONE /\ Len(au) = 2 /\ au[1] = "prov#" /\ au[2] \in JRefAttrs \cup JTimeAttrs
                      THEN au[2] ELSE ""
           IN {[a |-> au, v |-> v] :
@@ -125,7 +125,7 @@ RecsOfKind(kind, m, inner, outer) ==
                       bs == Bodies(m.items[i][2])
                   IN [j \in 1..Len(bs) |->
                         [k |-> kind,
-                         id |-> IF IsBlank(ids) THEN NONE ELSE StrUri(ids, inner, outer),
+                         id |-> IF IsBlank(ids) THEN NONE ELSE JStrUri(ids, inner, outer),
                          attrs |-> AttrsOf(bs[j], inner, outer)]]
   IN FlattenSeq([i \in 1..Len(m.items) |-> perId(i)])
 RecsOfKinds(container, i, inner, outer) ==
@@ -161,6 +161,6 @@ SpecReadJSON(tree) ==
                      LET sc == ScopeOf(bs[i][2]) IN
                      (* the key names the bundle through the bundle's own declarations, then the *)
                      (* document's (ProvToolbox practice, e.g. the corpus file bundle4.json)       *)
-                     [id |-> StrUri(bs[i][1], sc, top),
+                     [id |-> JStrUri(bs[i][1], sc, top),
                       recs |-> RecsOfKinds(bs[i][2], 1, sc, top)]]]
 =============================================================================
